@@ -88,7 +88,7 @@ pub fn scenario(sub: u64) -> Option<(String, u64)> {
                         if !name.is_empty() && q.name() != name {
                             mis.store(true, Ordering::SeqCst);
                         }
-                        names.push(q.name().to_string());
+                        names.push(format!("{}/{:?}/{:?}", q.name(), q.declared_message_count(), q.declared_consumer_count()));
                         std::mem::forget(q);
                         ok += 1;
                         if ok > 200_000 {
@@ -269,7 +269,9 @@ pub fn scenario(sub: u64) -> Option<(String, u64)> {
         let sent: Vec<String> = log_replies
             .iter()
             .filter_map(|(ch, f)| match f {
-                AMQPFrame::Method(_, AMQPClass::Queue(amq_protocol::protocol::queue::AMQPMethod::DeclareOk(d))) if ch == id => Some(d.queue.clone()),
+                AMQPFrame::Method(_, AMQPClass::Queue(amq_protocol::protocol::queue::AMQPMethod::DeclareOk(d))) if ch == id => {
+                    Some(format!("{}/{:?}/{:?}", d.queue, Some(d.message_count), Some(d.consumer_count)))
+                }
                 _ => None,
             })
             .collect();
